@@ -38,19 +38,22 @@ def stepLine (st : St) (line : String) : St × String :=
     ((cf, rc.1, ru.1), s!"C={fmtResp rc.2};U={fmtResp ru.2}")
   match line.trimAscii.toString.splitOn " " with
   | ["new"] => ((cf, Server.empty, UServer.empty), "ok")
-  | ["cfg", r, a] => (({ replayIsComplete := r == "1", atomicWrite := a == "1", loadIsPerEntry := true, replayOrderPreserved := true, loadReadsCommitted := true }, c, u), "ok")
+  | ["cfg", r, a] => (({ replayIsComplete := r == "1", atomicWrite := a == "1", loadIsPerEntry := true, replayOrderPreserved := true, loadReadsCommitted := true, loadSkipsUnusable := true }, c, u), "ok")
   | ["damage", id] =>
     match id.toNat? with
     | some id => ((both (.damage id)).1, "ok")
     | none => (st, "bad-op")
   | "startup" :: cmp :: per :: entries =>
-    -- startup <compress 0|1> <loadIsPerEntry 0|1> <b|r>...   start-up over a directory listing (b = damaged file, r = readable)
+    -- startup <compress 0|1> <loadIsPerEntry 0|1> <b|j|r>...   start-up over a directory listing (b = unreadable file,
+    -- j = parses but holds no session state, r = session state); loadSkipsUnusable as set by `cfgj`
     let p0 : Persist := { spec := { start := 0, dt := 1, stop := 1, tag := 0 }, step := 0, log := [] }
-    let l : List (Option Persist) := entries.zipIdx.map fun (e, i) => if e == "b" then none else some { p0 with step := i }
+    let l : List Stored := entries.zipIdx.map fun (e, i) =>
+      if e == "b" then .unreadable else if e == "j" then .notASession else .session { p0 with step := i }
     let cf' : Cfg := { cf with loadIsPerEntry := per == "1" }
-    (st, match startup (cmp == "1") (loadEntries cf' (listing l)) with
+    (st, match startup (cmp == "1") (loadEntriesS cf' (listingS l)) with
       | none => "raises"
       | some ps => "ok:" ++ ",".intercalate (ps.map fun p => toString p.step))
+  | ["cfgj", b] => (({ cf with loadSkipsUnusable := b == "1" }, c, u), "ok")
   | ["start", id, a, d, z, tag] =>
     match id.toNat?, a.toInt?, d.toInt?, z.toInt?, tag.toNat? with
     | some id, some a, some d, some z, some tag =>
@@ -81,4 +84,4 @@ partial def loop (h : IO.FS.Stream) (st : St) : IO Unit := do
   IO.println out
   loop h st'
 
-def main : IO Unit := do loop (← IO.getStdin) ({ replayIsComplete := true, atomicWrite := false, loadIsPerEntry := true, replayOrderPreserved := true, loadReadsCommitted := true }, Server.empty, UServer.empty)
+def main : IO Unit := do loop (← IO.getStdin) ({ replayIsComplete := true, atomicWrite := false, loadIsPerEntry := true, replayOrderPreserved := true, loadReadsCommitted := true, loadSkipsUnusable := true }, Server.empty, UServer.empty)
